@@ -463,7 +463,12 @@ F(r) ==
          family |-> Family(r.p),
          slots |-> [key \in {x \in DOMAIN Slots : \E fn \in NativeFns(r.p) : x = Key(r.p, fn)} |-> Slots[key]],
          scalars |-> ScalarFns, lists |-> ListFns, pagesize |-> PAGESIZE,
-         pid0rule |-> r.p \in Pid0Rule, procfs |-> r.p \in Procfs]
+         pid0rule |-> r.p \in Pid0Rule, procfs |-> r.p \in Procfs,
+         \* front-end post-processing of net_if_addrs(): an incomplete MAC address is
+         \* padded to six groups with the platform's separator; on Windows (the native
+         \* layer hands back no broadcast address) the IPv4/IPv6 broadcast is computed
+         macsep |-> IF r.p = "windows" THEN "-" ELSE ":", macgroups |-> 6,
+         computes_broadcast |-> r.p = "windows"]
 
 Init == /\ inp \in Rows
         /\ out = Pending
